@@ -24,6 +24,13 @@ import (
 
 type Opts struct {
 	NoB bool `json:"no_b"`
+	// Tasks: the base histories contain API operations and background steps (import of C,
+	// removal of B, NewAddress); the oracle then also covers their completion.
+	Tasks bool `json:"tasks"`
+}
+
+func isOp(ev string) bool {
+	return strings.HasPrefix(ev, "i.") || strings.HasPrefix(ev, "k.") || strings.HasPrefix(ev, "n.") || ev == "z"
 }
 
 type Model struct {
@@ -103,13 +110,36 @@ func (m *Model) Run(hist []string) *proto.Result {
 		}
 		base = append(base, e)
 	}
+	tasks := m.O.Tasks
+	for _, e := range base {
+		if isOp(e) {
+			tasks = true // a replayed history names its own pass
+		}
+	}
+	defer func(o bool) { m.O.Tasks = o }(m.O.Tasks)
+	m.O.Tasks = tasks
 	m.seq++
 	dir := filepath.Join(env.Scratch(), fmt.Sprintf("c06-%d", m.seq))
 	defer os.RemoveAll(dir)
 	var seam *dbseam.DB
-	w, err := world.New(dir, world.Options{NoB: m.O.NoB, Wrap: func(u mwdb.DB) mwdb.DB {
-		seam = dbseam.Wrap(u, dbseam.NoPlan)
+	w, err := world.New(dir, world.Options{NoB: m.O.NoB && !m.O.Tasks, Wrap: func(u mwdb.DB) mwdb.DB {
+		ns := dbseam.Wrap(u, dbseam.NoPlan)
+		if seam != nil {
+			// a restart inside the history re-opens the database: plan and counters carry over
+			ns.Plan, ns.Calls, ns.Commits, ns.Injected, ns.Disarmed, ns.Committed = seam.Plan, seam.Calls, seam.Commits, seam.Injected, seam.Disarmed, seam.Committed
+			ns.Closes, ns.Suspended = seam.Closes, seam.Suspended
+		}
+		seam = ns
 		return seam
+	}, HarnessDB: func(begin bool) {
+		if seam == nil {
+			return
+		}
+		if begin {
+			seam.Suspend()
+		} else {
+			seam.Resume()
+		}
 	}})
 	if err != nil {
 		res.Err = "world: " + err.Error()
@@ -119,13 +149,19 @@ func (m *Model) Run(hist []string) *proto.Result {
 	seam.Calls, seam.Commits = 0, 0
 	seam.Plan = plan
 	crashed := false
+	removeAcked := false
+	var failedOps []string
 	for i, ev := range base {
 		if crashed && ev == "d" {
 			w.N.Pop() // the wallet is down: the notification is lost
 			continue
 		}
+		if crashed && isOp(ev) {
+			continue // the wallet is down: nobody can call it or run its background steps
+		}
 		var ok bool
 		var aerr error
+		injectedBefore := seam.Injected
 		func() {
 			defer func() {
 				if e := recover(); e != nil {
@@ -140,13 +176,42 @@ func (m *Model) Run(hist []string) *proto.Result {
 			}()
 			ok, aerr = w.Apply(ev)
 		}()
+		if aerr != nil && mode == "fail" && ev == "z" && seam.Injected > injectedBefore {
+			// the process did not come up: the operator starts it again (the plan stays armed)
+			res.Info["restarts_failed_under_fault"]++
+			for k := 0; k < 6 && aerr != nil; k++ {
+				ok, aerr = w.Apply(ev)
+			}
+			if aerr != nil {
+				res.Viol = append(res.Viol, "the wallet does not start any more after a storage fault during start-up: "+aerr.Error())
+				res.Outcome = "restart-failed"
+				return res
+			}
+			continue
+		}
+		if aerr != nil && mode == "fail" && isOp(ev) && seam.Injected > injectedBefore {
+			// the operation reported failure under the injected fault: it is repeated once
+			// storage works again
+			failedOps = append(failedOps, ev)
+			res.Info["ops_failed_under_fault"]++
+			continue
+		}
 		if aerr != nil {
 			res.Err = fmt.Sprintf("event %d %s: %v", i, ev, aerr)
 			return res
 		}
 		if !ok {
+			if mode == "fail" && seam.Injected > 0 && isOp(ev) {
+				continue // depends on an operation that failed under the fault
+			}
 			res.Err = fmt.Sprintf("event %d %s not enabled on replay", i, ev)
 			return res
+		}
+		if ev == "k.rm" && !crashed {
+			removeAcked = true
+		}
+		if ev == "k.im" && !crashed {
+			removeAcked = false // the removed wallet's mnemonic was imported again
 		}
 	}
 	res.Info["commits"] = seam.Commits
@@ -157,12 +222,13 @@ func (m *Model) Run(hist []string) *proto.Result {
 	kh := sha256.Sum256(kb)
 	res.Key = hex.EncodeToString(kh[:16])
 	res.Quiescent = true
+	if mode == "crash" && !crashed {
+		// the planned commit does not exist in this run: it proceeds like the dry run
+		res.Info["crash_not_reached"] = 1
+		mode = ""
+	}
 	switch mode {
 	case "crash":
-		if !crashed {
-			res.Info["crash_not_reached"] = 1
-			break
-		}
 		for len(w.N.Queue) > 0 {
 			w.N.Pop()
 		}
@@ -177,8 +243,54 @@ func (m *Model) Run(hist []string) *proto.Result {
 			res.Outcome = "inconclusive"
 			return res
 		}
+		if m.O.Tasks {
+			res.Viol = append(res.Viol, m.adopt(w)...)
+			if w.Wallets["C"] != nil {
+				if st := w.TaskStatus("C"); st != "ready" {
+					res.Viol = append(res.Viol, "after restart and catch-up the imported wallet is "+st+", not ready")
+				}
+			}
+			if removeAcked {
+				if st := w.TaskStatus("B"); st != "absent" {
+					res.Viol = append(res.Viol, "the removal was accepted before the crash but after restart the wallet is "+st)
+				}
+			}
+		}
 	case "fail":
-		// storage works again; deliver what is queued, then the node announces one more tip
+		// storage works again: operations that reported failure are repeated
+		for _, ev := range failedOps {
+			ok, err := w.Apply(ev)
+			if err == nil && ok {
+				continue
+			}
+			switch {
+			case strings.HasPrefix(ev, "i.m"):
+				// acceptable only if the first attempt took effect after all
+				if v := m.adopt(w); len(v) > 0 || w.Wallets["C"] == nil {
+					res.Viol = append(res.Viol, fmt.Sprintf("repeating %s after storage works again: enabled=%v err=%v", ev, ok, err))
+					res.Viol = append(res.Viol, v...)
+				}
+			case ev == "k.rm":
+				if st := w.TaskStatus("B"); st != "removing" && st != "absent" {
+					res.Viol = append(res.Viol, fmt.Sprintf("repeating the removal after storage works again: enabled=%v err=%v, wallet is %s", ok, err, st))
+				}
+			case ev == "n.a":
+				res.Viol = append(res.Viol, fmt.Sprintf("repeating NewAddress after storage works again failed: %v", err))
+			}
+		}
+		if m.O.Tasks {
+			if w.RemoveFailed {
+				// worker() re-queues a removal that returned an error
+				if err := w.RemoveRun(); err != nil {
+					res.Viol = append(res.Viol, "the removal still fails once storage works again: "+err.Error())
+				}
+			}
+			res.Viol = append(res.Viol, m.adopt(w)...)
+			if err := w.CompleteTasks(); err != nil {
+				res.Viol = append(res.Viol, "background work does not complete once storage works again: "+err.Error())
+			}
+		}
+		// deliver what is queued, then the node announces one more tip
 		for len(w.N.Queue) > 0 {
 			if err := w.Deliver(); err != nil {
 				res.Err = err.Error()
@@ -200,9 +312,25 @@ func (m *Model) Run(hist []string) *proto.Result {
 				return res
 			}
 		}
+		if m.O.Tasks {
+			if err := w.CompleteTasks(); err != nil {
+				res.Err = "completing background tasks: " + err.Error()
+				return res
+			}
+			for len(w.N.Queue) > 0 {
+				if err := w.Deliver(); err != nil {
+					res.Err = err.Error()
+					return res
+				}
+			}
+		}
 	}
 	diffs, obs := w.CheckLedger()
-	res.Viol = diffs
+	res.Viol = append(res.Viol, diffs...)
+	if m.O.Tasks {
+		res.Viol = append(res.Viol, w.CheckRemoved()...)
+		res.Viol = append(res.Viol, w.CheckAddressList()...)
+	}
 	if len(diffs) > 0 {
 		res.Detail = map[string]interface{}{"handler_errors": w.HandlerErrs, "obs": obs}
 	}
@@ -213,6 +341,25 @@ func (m *Model) Run(hist []string) *proto.Result {
 	oh := sha256.Sum256(ob)
 	res.Outcome = hex.EncodeToString(oh[:8])
 	return res
+}
+
+// adopt handles wallets the instance holds although the harness never saw the call return
+// (crash or fault inside ImportWalletWithMnemonic): C is adopted, anything else is a phantom.
+func (m *Model) adopt(w *world.World) []string {
+	u, err := w.UnknownWallets()
+	if err != nil {
+		return []string{"Wallets(): " + err.Error()}
+	}
+	var d []string
+	for _, id := range u {
+		isC, err := w.AdoptC(id)
+		if err != nil {
+			d = append(d, "adopting "+id+": "+err.Error())
+		} else if !isC {
+			d = append(d, "phantom wallet "+id+" is listed")
+		}
+	}
+	return d
 }
 
 func firstLines(s string, n int) string {
